@@ -81,6 +81,14 @@ def _gen0(rng, tier):
         trajs = G.insert_empties(trajs, G.empty_positions(rng, len(trajs)))
         yield {'k': rng.choice(['wt', 'paths']), 'trajs': trajs, 'S': S, 'F': F, 'form': rng.choice(['loa', 'loa', 'obj']),
                'alpha': akind + '+empty', 'mal': None}
+    for _ in range(G.budget(10) if tier == 'quick' else 150):      # unusual sizes (many trajectories / frames / states)
+        trajs, tag = G.size_classes(rng, sticky=0.7)
+        present = sorted({v for t in trajs for v in t})
+        if len(present) < 2:
+            continue
+        S, F = [present[0]] + ([present[len(present) // 3]] if len(present) > 4 else []), [present[-1]] + ([present[-2]] if len(present) > 70 else [])
+        yield {'k': 'wt' if tag == 'long' else rng.choice(['wt', 'paths']), 'trajs': trajs, 'S': S, 'F': F, 'form': rng.choice(['loa', 'obj']),
+               'alpha': 'size-' + tag, 'mal': None}
     if tier == 'thorough':
         labs = [0, 1, 2, 3]
         subsets = [list(c) for r in range(1, 4) for c in itertools.combinations(labs, r)]
